@@ -282,3 +282,26 @@ pub(crate) unsafe fn stub_blendv_ps(
     ];
     core::mem::transmute(r)
 }
+
+/// The value under slot `i` as (first 16 bytes, next 16 bytes, length) -- loop-free comparison
+/// of values up to 32 bytes.
+pub(crate) fn slot_words(st: &Store, i: usize) -> (u128, u128, usize) {
+    let mut v = [0u8; heed::VMAX];
+    let mut len = 0usize;
+    let mut s = 0;
+    while s < CAP {
+        if s == i {
+            v = st.vals[s];
+            len = st.vlen[s];
+        }
+        s += 1;
+    }
+    (val16(&v) & mask16(len), if len > 16 { val16b(&v) & mask16(len - 16) } else { 0 }, len)
+}
+
+/// Expected bytes (<= 32, zero padded) as the same pair of words.
+pub(crate) fn words_of(b: &[u8; 32]) -> (u128, u128) {
+    let lo: [u8; 16] = [b[0], b[1], b[2], b[3], b[4], b[5], b[6], b[7], b[8], b[9], b[10], b[11], b[12], b[13], b[14], b[15]];
+    let hi: [u8; 16] = [b[16], b[17], b[18], b[19], b[20], b[21], b[22], b[23], b[24], b[25], b[26], b[27], b[28], b[29], b[30], b[31]];
+    (u128::from_le_bytes(lo), u128::from_le_bytes(hi))
+}
